@@ -192,7 +192,8 @@ let run_one (p : parsed) idx =
           if not (inv_b p.conf [] !m) then Printf.printf "INV FAIL %d\n" k;
           if not (no_bad !m) then Printf.printf "INV BAD %d\n" k;
           if no_panic_yet !m && not (exact_b [] !m) then Printf.printf "INV EXACT FAIL %d\n" k;
-          if no_panic_yet !m && not (cover_b prog !m) then Printf.printf "INV COVER FAIL %d\n" k
+          if no_panic_yet !m && not (cover_b prog !m) then Printf.printf "INV COVER FAIL %d\n" k;
+          if no_panic_yet !m && not (maps_owned_b !m) then Printf.printf "INV COVER MAPS %d\n" k
         end
       end) prog.p_main;
   Printf.printf "== end %d\n" idx
